@@ -85,6 +85,11 @@ def gen_cases(chk):
     for ty in (0, 1):
         cases.append(("szMode=SZ_BEST_SPEED", ["c:%x:0:%s:%s:0:0,0,0,0,100:6:5:%s" % (ty, dbits(1e-3), dbits(1e-3), one)],
                       "c:%x:a:0:0:%s:0,0,0,0,1000:0:9:%s" % (ty, dbits(1e-2), one)))
+    # a decompression that stops early (tiny array: no header is parsed) leaves exe_params zeroed: the next compression must re-derive all of it
+    spiky = "c:0:0:%s:%s:0:0,0,0,0,1000:4:77:%s" % (dbits(1e-2), dbits(1e-3), one)
+    for ty in (0, 1):
+        cases.append(("szMode=SZ_BEST_SPEED", ["c:%x:0:%s:%s:0:0,0,0,0,a:0:5:%s" % (ty, dbits(1e-2), dbits(1e-3), one), "d:0"], spiky))
+        cases.append(("-", ["c:%x:0:%s:%s:0:0,0,0,0,a:0:5:%s" % (ty, dbits(1e-2), dbits(1e-3), one), "d:0", "m:0"], spiky.replace("c:0:", "c:1:", 1)))
     n = 400 if thorough else 70
     for _ in range(n):
         cfg = rng.choice(CFGS)
